@@ -31,19 +31,55 @@ class _Names:
             raise AnalysisError("anchor vanished: no TokenMatcher method stores token.matched_type (the matched-token sink)")
         return self._get("SINK", find)
 
-    # the dialect switch: the method (not __init__/reset) that assigns self.dialect
-    @property
-    def CHANGE_DIALECT(self) -> str:
+    # the dialect switch: the method (not __init__/reset) that looks a dialect up by name (Dialect.for_name) and installs it
+    def _dialect_switch(self):
         def find():
             cls = facts().cls(MQ)
             for fi in cls.all_methods():
                 if fi.name in ("__init__", "reset"):
                     continue
+                looked = None
+                for n in ast.walk(fi.node):
+                    if isinstance(n, ast.Assign) and len(n.targets) == 1 and isinstance(n.targets[0], ast.Name) and isinstance(n.value, ast.Call) \
+                            and isinstance(n.value.func, ast.Attribute) and n.value.func.attr == "for_name":
+                        looked = n.targets[0].id
+                if looked is None:
+                    # the look-up result may be stored at once: self.<dialect> = Dialect.for_name(...)
+                    for n in ast.walk(fi.node):
+                        if isinstance(n, ast.Call) and isinstance(n.func, ast.Attribute) and n.func.attr == "for_name":
+                            looked = ""
+                    if looked is None:
+                        continue
+                ps = fi.params()
+                dialect = dname = ktypes = None
+                for n in ast.walk(fi.node):
+                    if isinstance(n, ast.Assign):
+                        for t in n.targets:
+                            if isinstance(t, ast.Attribute) and isinstance(t.value, ast.Name) and t.value.id == ps[0]:
+                                v = n.value
+                                if isinstance(v, ast.Name) and v.id == looked:
+                                    dialect = dialect or t.attr
+                                elif isinstance(v, ast.Call) and isinstance(v.func, ast.Attribute) and v.func.attr == "for_name":
+                                    dialect = dialect or t.attr
+                                elif isinstance(v, ast.Name) and len(ps) > 1 and v.id == ps[1]:
+                                    dname = dname or t.attr
+                                elif isinstance(v, (ast.Call, ast.Dict, ast.DictComp)) and (not isinstance(v, ast.Call) or getattr(v.func, "id", getattr(v.func, "attr", "")) in ("defaultdict", "dict")):
+                                    ktypes = ktypes or t.attr
+                return (fi.name, dialect or "dialect", dname or "dialect_name", ktypes or "keyword_types")
+            # fall back to the method that assigns self.dialect
+            for fi in cls.all_methods():
+                if fi.name in ("__init__", "reset"):
+                    continue
                 for n in ast.walk(fi.node):
                     if isinstance(n, ast.Attribute) and isinstance(n.ctx, ast.Store) and n.attr == "dialect" and isinstance(n.value, ast.Name) and n.value.id == "self":
-                        return fi.name
-            raise AnalysisError("anchor vanished: no TokenMatcher method assigns self.dialect (the dialect switch)")
-        return self._get("CHANGE_DIALECT", find)
+                        return (fi.name, "dialect", "dialect_name", "keyword_types")
+            raise AnalysisError("anchor vanished: no TokenMatcher method looks up and installs a dialect (the dialect switch)")
+        return self._get("DIALECT_SWITCH", find)
+
+    CHANGE_DIALECT = property(lambda self: self._dialect_switch()[0])
+    DIALECT = property(lambda self: self._dialect_switch()[1])
+    DIALECT_NAME = property(lambda self: self._dialect_switch()[2])
+    KEYWORD_TYPES = property(lambda self: self._dialect_switch()[3])
 
     def _docstring_attrs(self):
         def find():
@@ -472,6 +508,46 @@ class _Names:
     CTX_ERRORS = property(lambda self: self._role("ctx_errors", "errors"))
     CTX_SCANNER = property(lambda self: self._role("ctx_scanner", "token_scanner"))
     CTX_MATCHER = property(lambda self: self._role("ctx_matcher", "token_matcher"))
+
+
+    # ---- attributes that hold collaborators (found by the calls made through them) -----------------------------
+    def _held(self, cls_q, method, called, default):
+        """The attribute X of ``cls_q`` such that ``self.X.<called>(...)`` occurs in ``method`` (any method when None)."""
+        def find():
+            try:
+                cls = facts().cls(cls_q)
+            except AnalysisError:
+                return default
+            ms = [cls.find_method(method)] if method else cls.all_methods()
+            for fi in ms:
+                if fi is None or not fi.params():
+                    continue
+                for n in ast.walk(fi.node):
+                    if isinstance(n, ast.Attribute) and n.attr == called and isinstance(n.value, ast.Attribute) and isinstance(n.value.value, ast.Name) \
+                            and n.value.value.id == fi.params()[0]:
+                        return n.value.attr
+            return default
+        return self._get(("HELD", cls_q, method, called), find)
+
+    PARSER_BUILDER = property(lambda self: self._held("gherkin.parser.Parser", None, "reset", "ast_builder"))
+    GE_PARSER = property(lambda self: self._held("gherkin.stream.gherkin_events.GherkinEvents", "enum", "parse", "parser"))
+    GE_COMPILER = property(lambda self: self._held("gherkin.stream.gherkin_events.GherkinEvents", "enum", "compile", "compiler"))
+
+    @property
+    def GE_OPTIONS(self) -> str:
+        """The attribute GherkinEvents.__init__ stores its options parameter in."""
+        def find():
+            try:
+                cls = facts().cls("gherkin.stream.gherkin_events.GherkinEvents")
+            except AnalysisError:
+                return "options"
+            init = cls.find_method("__init__")
+            ps = init.params() if init else []
+            for n in ast.walk(init.node) if init else []:
+                if isinstance(n, ast.Assign) and isinstance(n.targets[0], ast.Attribute) and isinstance(n.value, ast.Name) and len(ps) > 1 and n.value.id == ps[1]:
+                    return n.targets[0].attr
+            return "options"
+        return self._get("GE_OPTIONS", find)
 
 
 N = _Names()
